@@ -1,7 +1,9 @@
 (* C11 — FASTA/FASTQ indexing and random access return exactly the indexed bases.
    Property theorems only.  Models: NV.Fasta.Layout (raw lines, naive parse, writer),
    NV.Fasta.Indexer (io/indexer.rs), NV.Fasta.Query (fai/record.rs, fai/index.rs, io/reader.rs
-   query, io/reader/sequence.rs).  A file is any list of bytes; [record_of f r B] says that fai
+   query, io/reader/sequence.rs), NV.Fasta.Reader (sequential reader, writer per file),
+   NV.Fasta.Fastq (noodles-fastq writer, reader, indexer), NV.Fasta.Delivery (the query through a
+   chunked source, over C12's NV.Io models).  A file is any list of bytes; [record_of f r B] says that fai
    record r was produced by the indexer at a definition line of f carrying r's name and that B is
    the naive parse (contents of the following lines up to the next '>' line or the end of the
    file) of that record. *)
@@ -177,7 +179,7 @@ Theorem c11_fasta_writer_geometry : forall w rec off,
   f_name r = r_name rec /\ f_len r = len (r_seq rec) /\
   f_pos r = off + len (write_definition (r_name rec) (r_desc rec)) + 1 /\
   f_lb r = N.min (N.of_nat w) (len (r_seq rec)) /\ f_lw r = f_lb r + 1.
-Proof. intros w rec off. cbn. repeat split. Qed.
+Proof. exact fai_of_geometry. Qed.
 Print Assumptions c11_fasta_writer_geometry.
 
 (* ... and every region query on any record of the written file is exact (composition with
@@ -200,12 +202,7 @@ Theorem c11_fasta_writer_query_exact : forall w pre rec post,
     nth (N.to_nat (st - 1)) B 0 <> CR -> nth (N.to_nat (st - 1)) B 0 <> GT ->
     1 <= st -> st <= len B -> st <= en ->
     query_record chk f r s e = QOk (firstn (N.to_nat (en - st + 1)) (skipn (N.to_nat (st - 1)) B)).
-Proof.
-  intros w pre rec post Hw Hok Hb f r.
-  destruct (written_record_indexed w pre rec post Hw Hok Hb) as [H1 H2].
-  split; [exact H1|]. split; [exact H2|].
-  intros chk s e. exact (written_query_exact w pre rec post chk s e Hw Hok Hb).
-Qed.
+Proof. exact written_record_query_exact. Qed.
 Print Assumptions c11_fasta_writer_query_exact.
 
 (* ---- FASTQ ----
@@ -281,12 +278,7 @@ Theorem c11_query_exact_any_delivery : forall f recs err r chk s e cap sc,
     1 <= st -> st <= f_len r -> st <= en ->
     query_delivered chk cap f sc r s e
     = (SOk, QOk (firstn (N.to_nat (en - st + 1)) (skipn (N.to_nat (st - 1)) B))).
-Proof.
-  intros f recs err r chk s e cap sc H Hin Hcap.
-  destruct (query_exact_gen f recs err r chk s e H Hin) as [body [Hb Hq]].
-  exists body. split; [exact Hb|]. cbv zeta in *. intros Hh H1 H2 H3 H4 H5.
-  rewrite query_any_delivery by exact Hcap. f_equal. now apply Hq.
-Qed.
+Proof. exact query_exact_any_delivery. Qed.
 Print Assumptions c11_query_exact_any_delivery.
 
 (* The sequential reader: C12's model of read_sequence (read_to_end over the sequence reader)
